@@ -110,6 +110,12 @@ def cases(rng, quick):
         add(lambda i, k=k: g.mcall(g.call('generate', i.e(c(0)), g.bn('<', i.l(X), c(5)), g.bn('+', i.l(X), c(1))), 'take', c(k)), note='lazy-generate')
         add(lambda i, k=k: g.mcall(g.call('generate', i.e(c(1)), g.bn('<', i.l(X), c(3)), g.bn('*', i.l(X), c(2)), g.bn('+', i.l(X), c(10))), 'take', c(k)), note='lazy-generate')
     add(lambda i: g.mcall(g.call('generate', i.e(c(0)), g.bn('<', i.l(X), c(5)), g.bn('+', i.l(X), c(1))), 'first'), note='lazy-generate')
+    # the legacy (v0.2) method value.switch(c1 => v1, ...) of yaql.legacy contexts: cases after the matching one are not evaluated
+    for recv, conds in ((5, (False, None, True)), (5, (True, True, True)), (1, (False, None, False)), (0, (False, False, None)), (7, (None, True, False))):
+        add(lambda i, recv=recv, conds=conds: g.mcall(i.e(c(recv)), 'switch', *[
+            g.pair(i.l(c(cd)) if cd is not None else g.bn('>', i.l(g.var('')), c(2)), i.l(g.bn('+', g.var(''), c(k)))) for k, cd in enumerate(conds)]), note='legacy-switch')
+    add(lambda i: g.mcall(i.e(c(3)), 'switch'), note='legacy-switch')
+    add(lambda i: g.lst(g.mcall(i.e(c(3)), 'switch', g.pair(i.l(c(True)), i.l(c(1))), g.pair(i.l(c(True)), i.l(c(2)))), i.e(c(9))), note='legacy-switch')
     # several named arguments are evaluated in the order they are written, whatever their names
     add(lambda i: g.bn('->', g.call('let', zz=i.e(c(1)), b=i.e(c(2)), a=i.e(c(3))), g.lst(g.var('a'), g.var('b'), g.var('zz'))))
     add(lambda i: g.call('dict', z=i.e(c(1)), a=i.e(c(2)), m=i.e(c(3))))
@@ -192,9 +198,13 @@ def run(rep, tier, seed, keep=False):
         host = yaqlization.yaqlize(HostProbe())
         events = []
         desc = {}
+        from yaql import legacy as _legacy
+        real_legacy = g.Real()
+        real_legacy.ctx = _legacy.create_context(tuples=False)
+        real_legacy.ctx.register_function(real_legacy.tick, name='tick')
         for ast, data, eager, note in cases(rng, quick):
             text = g.render(ast)
-            res, log = real.run(text, data, raw_context={'h': host})
+            res, log = (real_legacy if note == 'legacy-switch' else real).run(text, data, raw_context={'h': host})
             i = len(events)
             events.append(g.event(i, ast, data, res, log=log, eager=eager, mode='log'))
             desc[i] = (text, data, note, res, log)
